@@ -500,47 +500,10 @@ theorem merge_ok_eq {self other : Mol} (hs : self.Inv) (ho : other.Inv)
     · rw [merge_err (Or.inr hn)] at hok; cases hok
   · rw [merge_err (Or.inl hf)] at hok; cases hok
 
-/-! ### a molecule merged into itself -/
+/-! ### node table growth -/
 
 theorem upsert_wf {m : Mol} (h : m.Wf) (k : Int) (a : Attrs) (mx : Option Int) :
     ({ m with nodes := upsert m.nodes k a, maxNode := mx } : Mol).Wf :=
   Mol.wf_grow h _ _ (upsert_nodup _ _ _ h.1) (fun x hx => (upsert_mem_keys _ _ _ _).mpr (Or.inl hx))
-
-theorem selfMerge_inv {m : Mol} (h : m.Inv) : m.selfMerge.1.Inv := by
-  unfold Mol.selfMerge
-  split
-  · exact merge_inv h h
-  · rename_i first hn
-    split
-    · exact merge_inv h h
-    · rename_i ty i rest hi
-      rw [mergeOffs_eq h.2]
-      dsimp only
-      have hne : m.nodes ≠ [] := by rw [hn]; simp
-      refine ⟨⟨upsert_nodup _ _ _ h.1.1, ?_, ?_⟩, ?_⟩
-      · intro e he
-        exact ⟨(upsert_mem_keys _ _ _ _).mpr (Or.inl (h.1.2.1 e he).1),
-               (upsert_mem_keys _ _ _ _).mpr (Or.inl (h.1.2.1 e he).2)⟩
-      · intro ti hti a ha
-        have hti' : ti ∈ m.inters ++ (m.inters.filter (fun ti => ti.1 == ty)).map
-            (fun ti => (ti.1, { ti.2 with atoms := ti.2.atoms.map (fun _ => m.offset + 1) })) := hti
-        rcases List.mem_append.mp hti' with h' | h'
-        · exact (upsert_mem_keys _ _ _ _).mpr (Or.inl (h.1.2.2 ti h' a ha))
-        · obtain ⟨tj, _, rfl⟩ := List.mem_map.mp h'
-          simp only [List.mem_map] at ha
-          obtain ⟨_, _, rfl⟩ := ha
-          exact (upsert_mem_keys _ _ _ _).mpr (Or.inr rfl)
-      · intro _ k hk
-        have hk' : some (m.offset + 1) = some k := hk
-        cases hk'
-        rw [maxKey_eq_some_iff]
-        refine ⟨(upsert_mem_keys _ _ _ _).mpr (Or.inr rfl), ?_⟩
-        intro x hx
-        rcases (upsert_mem_keys _ _ _ _).mp hx with hx | rfl
-        · have := offset_ge x hx; omega
-        · exact Int.le_refl _
-  · rw [mergeOffs_eq h.2]
-    dsimp only
-    exact Mol.inv_of_wf_none (upsert_wf h.1 _ _ _) rfl
 
 end C12
